@@ -99,7 +99,11 @@ def kani_part(prop, tier, only, scratch_tag):
                              if c["status"].upper() == "SUCCESS")
             for cid, cs in sorted(by_id.items()):
                 if re.match(r"C\d\d", cid) and prop not in kani.clause_props(cid):
-                    continue  # clause of another property served by the same harness
+                    # clause of another property served by the same harness; if it FAILS it ends those
+                    # paths, so this property's clauses were only checked on the remaining ones
+                    if any(c["status"].upper() == "FAILURE" for c in cs):
+                        undecided.append("%s: clause %s of another property fails in this shared harness; %s's clauses were not checked on those paths (run that property's check)" % (h.name, cid, prop))
+                    continue
                 sts = set(c["status"].upper() for c in cs)
                 if sts <= {"SUCCESS", "UNREACHABLE"} and "SUCCESS" in sts:
                     st = "discharged"
